@@ -184,12 +184,71 @@ class Fn:
         return "\n".join(out)
 
 
+def _sig_text(sg):
+    return "(%s) -> %s" % (", ".join(i.get("s", "?") for i in sg.get("inputs", [])), sg.get("output", {}).get("s", "?"))
+
+
+def alias_renamed(d, known_functions, known_sigs):
+    """A function of the reference tree that is gone, and exactly one new function with the same signature beside it
+    (same module / impl), or with the same name somewhere else: the function was renamed or moved.  The rule tables
+    name functions by path; the new function is given the old path (in its body, its closures, its signature entry
+    and at every call site) so that a rename does not look like `the anchor is gone` plus `an unknown helper`.
+    Returns {new path: old path}."""
+    bodies = {b["path"]: b for b in d["bodies"]}
+    sigs = {s_["path"]: s_ for s_ in d["sigs"]}
+    missing = [p for p in known_functions if p not in bodies and "{closure" not in p and p in known_sigs]
+    new = [p for p, b in bodies.items() if b["kind"] in ("fn", "assocfn") and p not in known_functions and not b.get("impl_trait") and p in sigs]
+    if not missing or not new:
+        return {}
+    parent = lambda p: p.rsplit("::", 1)[0] if "::" in p else ""
+    last = lambda p: p.rsplit("::", 1)[-1]
+    ren, taken = {}, set()
+    for f in sorted(missing):
+        same_sig = [g for g in new if g not in taken and _sig_text(sigs[g]) == known_sigs[f]]
+        cands = [g for g in same_sig if parent(g) == parent(f)] or [g for g in same_sig if last(g) == last(f)]
+        if len(cands) == 1:
+            ren[cands[0]] = f
+            taken.add(cands[0])
+    if not ren:
+        return {}
+
+    def fix_path(p):
+        if p in ren:
+            return ren[p]
+        for g, f in ren.items():
+            if p.startswith(g + "::{closure"):
+                return f + p[len(g):]
+        return p
+    for b in d["bodies"]:
+        old_path = b["path"]
+        b["path"] = fix_path(old_path)
+        if old_path in ren:
+            b["name"] = last(ren[old_path])
+        if b.get("parent"):
+            b["parent"] = fix_path(b["parent"])
+        for blk in b["blocks"]:
+            t = blk["term"]
+            if t["t"] in ("call", "tailcall"):
+                for k in ("callee", "resolved"):
+                    if t.get(k) in ren:
+                        t[k] = ren[t[k]]
+                        if k == "callee":
+                            t["callee_name"] = last(t[k])
+            for st in blk["stmts"]:
+                if st.get("s") == "assign" and st["rv"].get("r") == "aggregate" and st["rv"].get("closure"):
+                    st["rv"]["closure"] = fix_path(st["rv"]["closure"])
+    for s_ in d["sigs"]:
+        s_["path"] = fix_path(s_["path"])
+    return ren
+
+
 class Facts:
-    def __init__(self, path, known_functions=None):
+    def __init__(self, path, known_functions=None, known_sigs=None):
         with open(path) as f:
             self.d = json.load(f)
         self.crate = self.d["crate"]
         self.inlined = []
+        self.renamed = alias_renamed(self.d, set(known_functions), known_sigs) if known_functions and known_sigs else {}
         bodies = {b["path"]: b for b in self.d["bodies"]}
         if known_functions:
             import inline
